@@ -3,8 +3,8 @@
    lazy CRC table at statement granularity under sequential consistency), NV.Proto.Vmd (frames, handler, client loop),
    NV.Proto.SharedClasses (hand classification of NV.gen.SharedState, the nm/linker/relocation inventory of nano_vmd). *)
 From Coq Require Import NArith ZArith List Bool.
-From NV Require Import Base.Bytes gen.VmdConsts gen.VmdFacts gen.SharedState
-                       Proto.Vmd Proto.VmdProofs Proto.Sessions Proto.SessionsProofs Proto.SharedClasses Proto.SharedClassesProofs Proto.SessionsVmd.
+From NV Require Import Base.Bytes gen.VmdConsts gen.VmdFacts gen.VmdRecv gen.SharedState
+                       Proto.Vmd Proto.VmdProofs Proto.Sessions Proto.SessionsProofs Proto.SharedClasses Proto.SharedClassesProofs Proto.SessionsVmd Proto.VmdRecvProofs.
 Import ListNotations.
 Local Open Scope N_scope.
 
@@ -134,6 +134,27 @@ Theorem C17_verified_module_refused : forall c msg, c_verify_first c = true ->
   client_observe (encode_frame (error_frame (txt_verify_failed ++ msg)) ++ encode_frame (exit_frame 1)).
 Proof. exact verified_module_refused. Qed.
 Print Assumptions C17_verified_module_refused.
+
+(* ---- the receiver accepts what the sender can emit ----
+   NV.gen.VmdRecv holds the answers of the real vmd_msg_recv_header: per message-type byte the largest accepted payload_len.
+   The model's receiver accepts every type up to VMD_MAX_PAYLOAD; the table must say the same for all 256 type bytes (and the accepted
+   lengths must form a prefix, and the only accepted version must be VMD_VERSION).  A per-type limit added to the receiver breaks this. *)
+Theorem C17_receiver_limit_is_model : recv_table_ok = true.
+Proof. vm_compute. reflexivity. Qed.
+Print Assumptions C17_receiver_limit_is_model.
+
+(* in particular the frames client_thread sends (OUTPUT, EXIT_CODE, ERROR, PONG, STATUS_RSP), whose payload the sender bounds only by
+   what the stdio layer hands to the write callback, i.e. by VMD_MAX_PAYLOAD, are accepted at every such length *)
+Theorem C17_receiver_accepts_sender_frames : sender_frames_accepted = true.
+Proof. vm_compute. reflexivity. Qed.
+Print Assumptions C17_receiver_accepts_sender_frames.
+
+(* ... and so every well-formed frame of any type and length is accepted by the real receiver's limit and decoded by the model *)
+Theorem C17_every_frame_accepted : forall f, wf_frame f ->
+  exists m, lookup_recv vmd_recv_max (f_type f) = Some m /\ N.of_nat (length (f_payload f)) <= m /\
+            (forall rest, decode_frame (encode_frame f ++ rest) = Some (f, rest)).
+Proof. exact (receiver_is_model C17_receiver_limit_is_model). Qed.
+Print Assumptions C17_every_frame_accepted.
 
 (* the client side of a session puts no time limit on its blocking reads/writes (no SO_RCVTIMEO/SO_SNDTIMEO, alarm, poll/select in
    vmd_client.c, the read/write helpers of vmd_protocol.c, run_daemon): client_observe is a function of the reply bytes alone, so a
